@@ -84,13 +84,20 @@ func vfH_C03_tunnel() {
 }
 
 //vf:harness property=C03 nopanic reach=upstream-tunnel,upstream-early-server-data steps=8000000
-func vfH_C03_upstream() {
+func vfH_C03_upstream() { vfUpstreamTunnel("http") }
+
+//vf:assume C03-upstream-tls: the same through an https:// upstream proxy, with crypto/tls modelled as a transparent layer (the client side handshake exchanges nothing, reads and writes pass through): what is decided is that the CONNECT reply is parsed without reading past its head on this path too; certificates, records and alerts are outside; model-only (natively real TLS would run against the scripted connection)
+
+//vf:harness property=C03 nopanic modelonly reach=upstream-tunnel,upstream-early-server-data steps=8000000
+func vfH_C03_upstream_tls() { vfUpstreamTunnel("https") }
+
+func vfUpstreamTunnel(scheme string) {
 	// CONNECT through an upstream HTTP proxy: the proxy's reply is read without over-reading, so bytes the target
 	// sends right behind it reach the client, and the client's early data follows the CONNECT head to the upstream
 	cfg := HTTPProxyConfig{}
 	cfg.Name = "fw"
 	cfg.ProxyLocalhost = AllowProxyLocalhost
-	u, _ := url.Parse("http://proxy.internal:3128")
+	u, _ := url.Parse(scheme + "://proxy.internal:3128")
 	cfg.UpstreamProxy = u
 	hp := vfNewHTTPProxy(cfg)
 	max := 3
